@@ -3,7 +3,7 @@ From C18 Require Import Model.
 Extraction "Model.ml"
   lbm beginsWith split_char split_set tokenize lowerCase upperCase
   purl_parse u_type u_file u_params getValue hasParam
-  fn_norm fn_path fn_base fn_name fn_ext fn_dropExt fn_setExt fn_addExt fn_plus fn_plus_str
+  fn_norm fn_path fn_base fn_name fn_ext fn_dropExt fn_setExt fn_addExt fn_plus fn_plus_str fn_eq fn_minus
   al_ctor al_remove parseAndRemove removeArgs
   pd_choice pn_choice double_of_N pc_mul pc_factor pc_suffix
   Z.add Z.mul Z.opp Z.div Z.modulo Z.to_N Z.to_pos N.of_nat N.to_nat.
